@@ -76,6 +76,19 @@ def run_shard(ctx):
     for i in range(ctx.share({"quick": 30000, "thorough": 200000}[ctx.tier])):
         n = rng.choice([2, 3, 3, 4, 4, 4] + ([5] if ctx.tier == "thorough" else []))
         gd = gg.random_admg(rng, n)
+        if i % 25 == 19:
+            from .c08 import planted_template
+
+            gd, out_, cond_ = planted_template(rng)
+            ev, keys_ = [], set()
+            for c_ in out_ + cond_:
+                k_ = (c_[0], tuple(map(tuple, c_[1])))
+                if k_ not in keys_:
+                    keys_.add(k_)
+                    ev.append(c_)
+            classes["planted_template"] = classes.get("planted_template", 0) + 1
+            run_case(ctx, gd, ev, "planted_template")
+            continue
         if i % 25 == 9:
             gd, ev = planted_orphan_label(rng)
             classes["planted_orphan_label"] = classes.get("planted_orphan_label", 0) + 1
